@@ -82,6 +82,31 @@ Proof.
   destruct (lookup yield_var (locals s1)) as [[ | a| | |]|]; try discriminate; injection Y as <-; reflexivity.
 Qed.
 
+(* statement-by-statement symbolic execution: the value of the right-hand side first, then the statement *)
+Lemma exec_assign t e s s1 v :
+  eval call_ref prim s e = Ok (s1, v) -> exec call_ref prim s (SAssign t e) = Ok (Next (write s1 t v)).
+Proof. intros H. cbn [exec]. rewrite H. reflexivity. Qed.
+
+Lemma exec_sexpr e s s1 v :
+  eval call_ref prim s e = Ok (s1, v) -> exec call_ref prim s (SExpr e) = Ok (Next s1).
+Proof. intros H. cbn [exec]. rewrite H. reflexivity. Qed.
+
+Lemma exec_return e s s1 v :
+  eval call_ref prim s e = Ok (s1, v) -> exec call_ref prim s (SReturn (Some e)) = Ok (Ret s1 v).
+Proof. intros H. cbn [exec]. rewrite H. reflexivity. Qed.
+
+Lemma exec_block_next c t s s1 :
+  exec call_ref prim s c = Ok (Next s1) -> exec_block call_ref prim s (c :: t) = exec_block call_ref prim s1 t.
+Proof. intros H. cbn [exec_block]. rewrite H. reflexivity. Qed.
+
+Lemma exec_block_ret c t s s1 v :
+  exec call_ref prim s c = Ok (Ret s1 v) -> exec_block call_ref prim s (c :: t) = Ok (Ret s1 v).
+Proof. intros H. cbn [exec_block]. rewrite H. reflexivity. Qed.
+
+Lemma exec_block_exc c t s k :
+  exec call_ref prim s c = Exc k -> exec_block call_ref prim s (c :: t) = Exc k.
+Proof. intros H. cbn [exec_block]. rewrite H. reflexivity. Qed.
+
 Lemma ylist_update_yield loc l : ylist (update yield_var (PList l) loc) = Some l.
 Proof. unfold ylist. now rewrite lookup_update_eq. Qed.
 
